@@ -20,6 +20,11 @@ pub struct MemServer {
     pub notifications: usize,
     /// the server thread ended (the serve future returned): Some(ok?)
     pub ended: std::sync::Arc<std::sync::Mutex<Option<bool>>>,
+    /// when set, the next `window/workDoneProgress/create` request for token 0 (the LoadWorkspace task of a
+    /// workspace reload: it is sent between the reload's open-files snapshot and its re-index) is kept
+    /// unanswered in `held` instead of being answered at once
+    pub want_hold: bool,
+    pub held: Option<RequestId>,
 }
 
 pub fn path_to_uri(p: &Path) -> String {
@@ -65,6 +70,8 @@ impl MemServer {
             inbox: VecDeque::new(),
             notifications: 0,
             ended,
+            want_hold: false,
+            held: None,
         };
         s.send_req(
             RequestId::from(0),
@@ -106,7 +113,12 @@ impl MemServer {
                 true
             }
             Ok(Message::Request(r)) => {
-                let _ = self.client.sender.send(Message::Response(Response::new_ok(r.id, Value::Null)));
+                if self.want_hold && self.held.is_none() && r.method == "window/workDoneProgress/create" && r.params["token"] == json!(0) {
+                    self.held = Some(r.id);
+                    self.want_hold = false;
+                } else {
+                    let _ = self.client.sender.send(Message::Response(Response::new_ok(r.id, Value::Null)));
+                }
                 true
             }
             Ok(Message::Notification(_)) => {
@@ -139,6 +151,34 @@ impl MemServer {
                 last = Instant::now();
             }
         }
+    }
+
+    /// answer the held progress-create request, if any
+    pub fn release(&mut self) {
+        self.want_hold = false;
+        if let Some(id) = self.held.take() {
+            let _ = self.client.sender.send(Message::Response(Response::new_ok(id, Value::Null)));
+        }
+    }
+
+    /// wait (at most `max`) until the next reload's progress-create request has arrived and is being held
+    pub fn hold(&mut self, max: Duration) -> bool {
+        self.want_hold = true;
+        let t0 = Instant::now();
+        while self.held.is_none() && t0.elapsed() < max {
+            self.pump(Duration::from_millis(20));
+        }
+        if self.held.is_none() {
+            self.want_hold = false;
+        }
+        self.held.is_some()
+    }
+
+    /// caps of a client that supports work-done progress and watches files itself (the server then relies on
+    /// `workspace/didChangeWatchedFiles` notifications, which a harness can send to trigger a workspace reload)
+    pub fn reload_caps() -> Value {
+        json!({"workspace": {"configuration": false, "didChangeWatchedFiles": {"dynamicRegistration": true}}, "textDocument": {},
+               "window": {"workDoneProgress": true}})
     }
 
     pub fn take_inbox(&mut self) -> Vec<Response> {
